@@ -34,6 +34,7 @@ type clH struct {
 	denoms map[uint64][2]string
 	pos    []clPos
 	feeIn  map[string]*big.Int // fee account inflow per pool/denom (from balance deltas)
+	lastErr string
 }
 
 func accName(i int) string { return fmt.Sprintf("a%d", i) }
@@ -253,6 +254,27 @@ func (h *clH) amountToNextTick(id uint64, baseIn bool) (sdkmath.Int, bool) {
 		ok = out.IsPositive()
 	}()
 	return out, ok
+}
+
+// minSqrtPrice: the smallest of the pool's current sqrt price and the sqrt prices of the position's two ticks
+func (h *clH) minSqrtPrice(pool uint64, q clPos) sdkmath.LegacyDec {
+	p, found, _ := h.c.App.LiquiditypoolKeeper.GetPool(h.c.Ctx(), pool)
+	m := sdkmath.LegacyZeroDec()
+	if !found {
+		return m
+	}
+	func() {
+		defer func() { recover() }()
+		if cur, err := sdkmath.LegacyNewDecFromStr(p.CurrentSqrtPrice); err == nil && cur.IsPositive() {
+			m = cur
+		}
+		for _, t := range []int64{q.lo, q.hi} {
+			if sp, err := lptypes.TickToSqrtPrice(t, p.TickParams); err == nil && sp.IsPositive() && (m.IsZero() || sp.LT(m)) {
+				m = sp
+			}
+		}
+	}()
+	return m
 }
 
 func (h *clH) curTick(id uint64) int64 {
@@ -607,6 +629,10 @@ func (h *clH) decrease(q clPos, who int, full bool) string {
 	e.In("decrease %s %d %s", accName(who), q.id, amt)
 	resp, err, p := c.Exec(&lptypes.MsgDecreaseLiquidity{Sender: c.Accs[who].Addr.String(), Id: q.id, Liquidity: amt.String()})
 	cls := class(err, p)
+	h.lastErr = ""
+	if err != nil {
+		h.lastErr = err.Error()
+	}
 	h.undoIf(cls)
 	e.Stat("decrease." + cls)
 	e.Oracle("no_panic", cls != "panic", "decrease")
@@ -754,8 +780,18 @@ func (h *clH) drain() {
 			if e.R.Bool() {
 				h.claim(q, q.owner, false)
 			}
+			minP := h.minSqrtPrice(pool, q)
 			cls := h.decrease(q, q.owner, true)
-			e.Oracle("drain_succeeds", cls == "ok", "full withdrawal of position %d in pool %d: %s", q.id, pool, cls)
+			// class of a failing exit: `low_price_rounding` = the pool account is short of the computed amount and the
+			// sqrt prices involved are below 1e-9, where the fixed-point evaluation of the base formula loses whole coins
+			fc := ""
+			if cls != "ok" {
+				fc = "class=other"
+				if strings.Contains(h.lastErr, "insufficient funds") && minP.IsPositive() && minP.LT(sdkmath.LegacyNewDecWithPrec(1, 9)) {
+					fc = "class=low_price_rounding"
+				}
+			}
+			e.Oracle("drain_succeeds", cls == "ok", "%s full withdrawal of position %d in pool %d: %s min_sqrt_price=%s %s", fc, q.id, pool, cls, minP, h.lastErr)
 		}
 		h.dump(pool)
 	}
